@@ -231,25 +231,83 @@ def replay_stripe(c, exp):
     return good, obs, None
 
 
-def replay_anchor_group(stripe, direction, group, cache=None):
-    """group: list of (c, exp) of one stripe and direction; one vectorised transform of ONE array-valued
-    coordinate object.  Objects are cached by their coordinates: the (ra, dec) anchors common to all stripes
-    are one ICRS object handed to the transform of every stripe in turn; every object is transformed twice
-    and the second result is the one compared (a transform must not depend on what was done before)."""
+ANCHOR_SHAPES = [(3, 5), (2, 5), (3, 3), (2, 3, 4), (5, 3), (1, 7), (7, 1)]
+
+
+def anchor_shape(stripe, direction):
+    return ANCHOR_SHAPES[(stripe + (3 if direction == 'inv' else 0)) % len(ANCHOR_SHAPES)]
+
+
+def _anchor_eval(stripe, direction, lon, lat, shape, cache):
+    """Transform the n source points handed over in the given form.  shape None: ONE 1-D coordinate object
+    (cached by its coordinates, so the anchors common to all stripes are one ICRS object handed to every
+    stripe's transform in turn); shape 'scalar': n scalar objects; a tuple: arrays of that shape filled
+    cyclically with the points (as many arrays as needed).  Every object is transformed twice and the second
+    result is used.  Returns per point: lon, lat of the image, object-unchanged flag, result-shape flag."""
+    n = len(lon)
+    lon = np.array(lon, dtype=float)
+    lat = np.array(lat, dtype=float)
+    glon, glat = np.full(n, np.nan), np.full(n, np.nan)
+    kept, shok = np.ones(n, dtype=bool), np.ones(n, dtype=bool)
+
+    def run(obj):
+        for _ in range(2):
+            res = tr_icrs(obj) if direction == 'fwd' else tr_munu(obj, stripe)
+        return res
+
+    def build(a, b):
+        return make_munu(stripe, a, b) if direction == 'fwd' else make_icrs(a, b)
+
+    if shape is None:
+        key = (direction, None if direction == 'inv' else stripe, tuple(lon), tuple(lat))
+        if key not in cache:
+            cache[key] = build(lon, lat)
+        obj = cache[key]
+        res = run(obj)
+        glon, glat = coord_values(res)
+        now = coord_values(obj)
+        kept = (now[0] == lon) & (now[1] == lat)
+        shok[:] = res.shape == (n,)
+    elif shape == 'scalar':
+        for j in range(n):
+            obj = build(lon[j], lat[j])
+            res = run(obj)
+            a, b = coord_values(res)
+            glon[j], glat[j] = a[0], b[0]
+            now = coord_values(obj)
+            kept[j] = now[0][0] == lon[j] and now[1][0] == lat[j]
+            shok[j] = res.shape == ()
+    else:
+        size = int(np.prod(shape))
+        for lo in range(0, n, size):
+            idx = np.resize(np.arange(lo, min(n, lo + size)), shape)
+            obj = build(lon[idx], lat[idx])
+            res = run(obj)
+            a, b = coord_values(res)
+            now = coord_values(obj)
+            flat = idx.reshape(-1)
+            ok = res.shape == tuple(shape)
+            for pos in range(len(flat) - 1, -1, -1):        # first occurrence wins; every occurrence must be unchanged
+                j = flat[pos]
+                if ok:
+                    glon[j], glat[j] = a[pos], b[pos]
+                kept[j] = kept[j] and now[0][pos] == lon[j] and now[1][pos] == lat[j]
+                shok[j] = ok
+    return glon, glat, kept, shok
+
+
+def replay_anchor_group(stripe, direction, group, cache=None, shape=None):
+    """group: list of (c, exp) of one stripe and direction, handed to the transform in the form `shape`
+    (see _anchor_eval)."""
     lon = [e['src']['lon'] / 10.0 for _, e in group]
     lat = [e['src']['lat'] / 10.0 for _, e in group]
     cache = {} if cache is None else cache
-    key = (direction, None if direction == 'inv' else stripe, tuple(lon), tuple(lat))
+    form = '1-D array' if shape is None else shape if shape == 'scalar' else 'array of shape %s' % (tuple(shape),)
     try:
-        if key not in cache:
-            cache[key] = make_munu(stripe, lon, lat) if direction == 'fwd' else make_icrs(lon, lat)
-        obj = cache[key]
-        for _ in range(2):
-            res = tr_icrs(obj) if direction == 'fwd' else tr_munu(obj, stripe)
-        glon, glat = coord_values(res)
-        now = coord_values(obj)
+        glon, glat, kept, shok = _anchor_eval(stripe, direction, lon, lat, shape, cache)
     except Exception as ex:
-        return [(False, {'exc': repr(ex)}, None) for _ in group]
+        return [(False, {'exc': repr(ex), 'handed_over_as': form, 'shape': shape if shape is None else list(shape) if shape != 'scalar' else shape}, None)
+                for _ in group]
     elon = [e['dst']['lon'] / 10.0 for _, e in group]
     elat = [e['dst']['lat'] / 10.0 for _, e in group]
     sep = deg_sep(glon, glat, elon, elat)
@@ -257,11 +315,11 @@ def replay_anchor_group(stripe, direction, group, cache=None):
     for j, (c, e) in enumerate(group):
         isnan = bool(np.isnan(glon[j]) or np.isnan(glat[j]))
         d = CAP if isnan else ndeg(sep[j])
-        kept = bool(now[0][j] == lon[j] and now[1][j] == lat[j])
-        obs = {'lon': float(glon[j]), 'lat': float(glat[j]), 'disc_ndeg': d, 'nan': isnan, 'caller_object_unchanged': kept}
-        if not kept:
-            obs['caller_object_now'] = [float(now[0][j]), float(now[1][j])]
-        out.append((d <= e['tol'] and not isnan and kept, obs, 'D-C18-2' if (isnan and e['polar'] and kept) else None))
+        obs = {'lon': float(glon[j]), 'lat': float(glat[j]), 'disc_ndeg': d, 'nan': isnan, 'caller_object_unchanged': bool(kept[j]),
+               'result_shape_ok': bool(shok[j]), 'handed_over_as': form,
+               'shape': None if shape is None else shape if shape == 'scalar' else list(shape)}
+        good = d <= e['tol'] and not isnan and bool(kept[j]) and bool(shok[j])
+        out.append((good, obs, 'D-C18-2' if (isnan and e['polar'] and kept[j] and shok[j]) else None))
     return out
 
 
@@ -345,8 +403,8 @@ def describe(c, exp, obs):
                 (a[0], a[1], a[2], a[3], c['units'], obs.get('gcirc'), obs.get('expected'), c['fam'],
                  ','.join(obs.get('fails', [])) or obs.get('exc')))
     if k == 'anchor':
-        return ('stripe %d %s: (%s, %s) deg -> observed (%r, %r), specified (%s, %s), off by %s ndeg (tol %s)%s' %
-                (c['stripe'], 'mu,nu->ra,dec' if c['dir'] == 'fwd' else 'ra,dec->mu,nu', exp['src']['lon'] / 10.0,
+        return ('stripe %d %s [%s]: (%s, %s) deg -> observed (%r, %r), specified (%s, %s), off by %s ndeg (tol %s)%s' %
+                (c['stripe'], 'mu,nu->ra,dec' if c['dir'] == 'fwd' else 'ra,dec->mu,nu', obs.get('handed_over_as'), exp['src']['lon'] / 10.0,
                  exp['src']['lat'] / 10.0, obs.get('lon'), obs.get('lat'), exp['dst']['lon'] / 10.0, exp['dst']['lat'] / 10.0,
                  obs.get('disc_ndeg', obs.get('exc')), exp['tol'],
                  '' if obs.get('caller_object_unchanged', True) else
@@ -395,9 +453,17 @@ def replay_cases(ctx, cases, geo):
         common = [ce for ce in grp if len(keys[(d, tlc_key(ce[0]['src']))]) == len({k[0] for k in groups})]
         own = [ce for ce in grp if len(keys[(d, tlc_key(ce[0]['src']))]) != len({k[0] for k in groups})]
         for part in (common, own):
-            if part:
-                for (c, exp), res in zip(part, replay_anchor_group(s, d, part, cache)):
-                    results.append((c, exp) + res)
+            if not part:
+                continue
+            # the same anchors as ONE 1-D object (shared), as 2-D / 3-D arrays, and (every 4th) as scalars
+            forms = [replay_anchor_group(s, d, part, cache), replay_anchor_group(s, d, part, cache, anchor_shape(s, d))]
+            sub = [j for j in range(len(part)) if (j + s) % 4 == 0]
+            scal = dict(zip(sub, replay_anchor_group(s, d, [part[j] for j in sub], cache, 'scalar'))) if sub else {}
+            for j, (c, exp) in enumerate(part):
+                cands = [f[j] for f in forms] + ([scal[j]] if j in scal else [])
+                bad = [r for r in cands if not r[0]]
+                results.append((c, exp) + (bad[0] if bad else cands[0]))
+                ctx.evaluated(len(cands) - 1, 'replay-anchor-shaped')
     n = 0
     for c, exp, good, obs, dev in results:
         n += 1
@@ -853,6 +919,139 @@ def reuse_records(rng, npts, times):
     return recs, info
 
 
+# ---- ArrayEqualsScalars: the same positions handed over as arrays of several shapes and one at a time
+TRANSFORM_SHAPES = [(5,), (7,), (3, 5), (3, 3), (2, 5), (5, 3), (2, 3, 4), (3, 2, 2), (1, 7), (7, 1)]
+GCIRC_SHAPES = [((5,), (5,)), ((5,), ()), ((3, 5), (3, 5)), ((3, 1), (1, 5)), ((3, 5), ()), ((), (3, 3)), ((3, 3), (3,)),
+                ((2, 5), (2, 5)), ((5, 3), (3,)), ((7, 2), (7, 1)), ((2, 3, 4), (4,)), ((3, 2, 2), (3, 2, 2)),
+                ((2, 1, 4), (3, 1)), ((1, 7), (1, 7)), ((7, 1), ()), ((1, 1), (1,))]
+ANGLE_ROWS = [1, 2, 3, 5, 7]
+
+
+def transform_shape_probe(fn, stripe, which, shape, lon, lat):
+    """fn on ONE coordinate object holding the arrays lon, lat (nested lists of shape `shape`) against fn on each
+    position as a scalar object"""
+    lon = np.array(lon, dtype=float)
+    lat = np.array(lat, dtype=float)
+    rec = {'kind': 'shape', 'fn': fn, 'shape': list(shape), 'bcast': False, 'raised': False, 'shapeok': False, 'nan': False,
+           'polar': False, 'disc': CAP}
+
+    def go(a, b):
+        if fn == 'radec_to_munu':
+            return tr_munu(make_icrs(a, b, which), stripe)
+        return tr_icrs(make_munu(stripe, a, b, which))
+
+    refs = [coord_values(go(a, b)) for a, b in zip(lon.reshape(-1), lat.reshape(-1))]
+    rlon = np.array([r[0][0] for r in refs])
+    rlat = np.array([r[1][0] for r in refs])
+    try:
+        res = go(lon, lat)
+    except Exception as ex:
+        rec['raised'] = True
+        return rec, repr(ex)
+    rec['shapeok'] = tuple(res.shape) == tuple(shape)
+    if rec['shapeok']:
+        glon, glat = coord_values(res)
+        rec['nan'] = bool(np.isnan([glon, glat, rlon, rlat]).any())
+        rec['polar'] = bool((np.abs(lat) > 89.9).any() or (np.abs(rlat[~np.isnan(rlat)]) > 89.9).any())
+        if not rec['nan']:
+            rec['disc'] = max(ndeg(x) for x in np.atleast_1d(deg_sep(glon, glat, rlon, rlat)))
+    return rec, None
+
+
+def gcirc_shape_probe(units, s1, s2, a):
+    """gcirc on arguments of shapes s1 (first point) and s2 (second point) against gcirc on each broadcast element"""
+    a = [np.array(x, dtype=float) for x in a]
+    want = np.broadcast_shapes(tuple(s1), tuple(s2))
+    rec = {'kind': 'shape', 'fn': 'gcirc', 'shape': list(want), 'bcast': tuple(s1) != tuple(s2), 'raised': False, 'shapeok': False,
+           'nan': False, 'polar': False, 'disc': CAP}
+    b = [x.reshape(-1) for x in np.broadcast_arrays(*a)]
+    ref = np.array([float(call_gcirc(float(b[0][j]), float(b[1][j]), float(b[2][j]), float(b[3][j]), units)) for j in range(len(b[0]))])
+    try:
+        got = np.asarray(call_gcirc(a[0], a[1], a[2], a[3], units))
+    except Exception as ex:
+        rec['raised'] = True
+        return rec, repr(ex)
+    rec['shapeok'] = tuple(got.shape) == tuple(want)
+    if rec['shapeok']:
+        got = got.reshape(-1).astype(float)
+        rec['nan'] = bool(np.isnan(got).any() or np.isnan(ref).any())
+        if not rec['nan']:
+            rec['disc'] = max(ppb(g, r) if abs(r) >= abs(g) else ppb(r, g) for g, r in zip(got, ref))
+    return rec, None
+
+
+def angles_shape_probe(fn, latitude, arr):
+    """angles_to_x / x_to_angles on an (n, 2) / (n, 3) array against the same rows handed over one at a time"""
+    arr = np.array(arr, dtype=float)
+    f = a2x if fn == 'angles_to_x' else x2a
+    ncol = 3 if fn == 'angles_to_x' else 2
+    rec = {'kind': 'shape', 'fn': fn, 'shape': list(arr.shape), 'bcast': False, 'raised': False, 'shapeok': False, 'nan': False,
+           'polar': False, 'disc': CAP}
+    ref = np.concatenate([f(arr[j:j + 1].copy(), latitude) for j in range(len(arr))], 0)
+    try:
+        got = f(arr.copy(), latitude)
+    except Exception as ex:
+        rec['raised'] = True
+        return rec, repr(ex)
+    rec['shapeok'] = got.shape == (len(arr), ncol)
+    if rec['shapeok']:
+        rec['nan'] = bool(np.isnan(got).any() or np.isnan(ref).any())
+        if not rec['nan']:
+            if fn == 'angles_to_x':
+                d = np.sqrt(((np.asarray(got, dtype=L) - np.asarray(ref, dtype=L)) ** 2).sum(1)) * R2D
+            else:
+                conv = (lambda t: t) if latitude else (lambda t: 90.0 - t)
+                d = deg_sep(got[:, 0], conv(got[:, 1]), ref[:, 0], conv(ref[:, 1]))
+            rec['disc'] = max(ndeg(x) for x in d)
+    return rec, None
+
+
+def shape_records(rng, stripes, greps, areps):
+    recs, info = [], []
+
+    def pts(shape):
+        n = int(np.prod(shape)) if shape else 1
+        lon = np.array([rng.uniform(0, 360) for _ in range(n)]).reshape(shape)
+        lat = np.array([math.degrees(math.asin(rng.uniform(-0.98, 0.98))) for _ in range(n)]).reshape(shape)
+        return lon, lat
+
+    for k, s in enumerate(stripes):
+        for fn in ('radec_to_munu', 'munu_to_radec'):
+            for m, shape in enumerate(TRANSFORM_SHAPES):
+                which = 'frame' if (k + m) % 2 else 'skycoord'
+                lon, lat = pts(shape)
+                rec, exc = transform_shape_probe(fn, s, which, shape, lon, lat)
+                recs.append(rec)
+                info.append({'probe': 'shape-transform', 'fn': fn, 'stripe': s, 'which': which, 'shape': list(shape),
+                             'lon': lon.tolist(), 'lat': lat.tolist(), 'exc': exc or ''})
+    for rep in range(greps):
+        for m, (s1, s2) in enumerate(GCIRC_SHAPES):
+            for units in UNITS:
+                p1, p2 = pts(s1), pts(s2)
+                # second point within ~2 deg of a (broadcast) first point would need care at the poles; any pair will do
+                a = [p1[0], p1[1], p2[0], p2[1]]
+                if units == 1:
+                    a[0], a[2] = a[0] / 15.0, a[2] / 15.0
+                if units == 0:
+                    a = [np.deg2rad(x) for x in a]
+                rec, exc = gcirc_shape_probe(units, s1, s2, a)
+                recs.append(rec)
+                info.append({'probe': 'shape-gcirc', 'units': units, 's1': list(s1), 's2': list(s2),
+                             'args': [np.asarray(x).tolist() for x in a], 'exc': exc or ''})
+    for rep in range(areps):
+        for n in ANGLE_ROWS:
+            for latitude in (False, True):
+                lon, lat = pts((n,))
+                ang = np.stack([lon, lat if latitude else 90.0 - lat], 1)
+                vec = a2x(ang.copy(), latitude)
+                for fn, arr in (('angles_to_x', ang), ('x_to_angles', vec)):
+                    rec, exc = angles_shape_probe(fn, latitude, arr)
+                    recs.append(rec)
+                    info.append({'probe': 'shape-angles', 'fn': fn, 'latitude': latitude, 'arr': np.asarray(arr).tolist(),
+                                 'exc': exc or ''})
+    return recs, info
+
+
 def judge(ctx, recs, minper, label):
     """Hand the records to Trace_SkyGeom.  Returns {i: (ok, why, trig, dev)}; i = 0 is the non-vacuity verdict."""
     import os
@@ -900,7 +1099,8 @@ def run(ctx):
                 'random/adversarial calls judged law by law by Trace_SkyGeom, counted per (law, class); coordinate objects '
                 '(array-valued and scalar, SkyCoord and bare frames) are reused across stripes / repeated transforms and '
                 'compared with the coordinates they were built from; CallerObjectUnchanged = argument arrays bit-identical '
-                'after the call')
+                'after the call; ArrayEqualsScalars = the same positions as arrays of shapes (n,), (3,5), (3,3), (2,5), (5,3), '
+                '(2,3,4), (3,2,2), (1,7), (7,1) (gcirc: broadcast pairs of shapes) against one-at-a-time calls, counted per shape class')
     ctx.assumptions = [
         'IEEE-754 doubles; numpy longdouble is the x87 80-bit format (64-bit mantissa) - checked at start',
         'exact families use coordinates b/8 + m/2^k that are exactly representable, so the separation TLC computes is the '
@@ -927,6 +1127,9 @@ def run(ctx):
     vrecs, vinfo = vec_records(rng, 40 if ctx.quick else 600, 3 if ctx.quick else 26)
     urecs, uinfo = reuse_records(rng, 5 if ctx.quick else 12, 3 if ctx.quick else 4)
     mrecs, minfo = mrecs + urecs + gunch, minfo + uinfo + [{'probe': 'unchanged-input', 'fn': 'gcirc'} for _ in gunch]
+    shrecs, shinfo = shape_records(rng, sorted(rng.sample(range(91), 12)) if ctx.quick else list(range(91)),
+                                   2 if ctx.quick else 18, 5 if ctx.quick else 50)
+    mrecs, minfo = mrecs + shrecs, minfo + shinfo
     recs = grecs + srecs + mrecs + vrecs
     verdict = judge(ctx, recs, 10 if ctx.quick else 100, ctx.tier)
     ok0, why0, _, _ = verdict[0]
@@ -980,7 +1183,15 @@ def replay(ctx, case):
     if 'case' in case:
         c, exp = case['case'], case['expected']
         if c['kind'] == 'anchor':
-            good, obs, dev = replay_anchor_group(c['stripe'], c['dir'], [(c, exp)])[0]
+            sh = (case.get('observed') or {}).get('shape')
+            forms = [None, 'scalar'] + ([tuple(sh)] if isinstance(sh, list) else list(ANCHOR_SHAPES[:3]))
+            good, obs, dev = True, None, None
+            for f in forms:
+                g, o, dv = replay_anchor_group(c['stripe'], c['dir'], [(c, exp)], None, f)[0]
+                print('handed over as', o.get('handed_over_as'), '->', 'ok' if g else o)
+                if obs is None or (good and not g):
+                    obs, dev = o, dv
+                good = good and g
         elif c['kind'] == 'stripe':
             good, obs, dev = replay_stripe(c, exp)
         elif c['kind'] == 'vecanchor':
@@ -1018,6 +1229,12 @@ def _reprobe(inf, old):
             if r['kind'] == old['kind'] and r.get('fn') == old.get('fn'):
                 last = r
         return last
+    if k == 'shape-transform':
+        return transform_shape_probe(inf['fn'], inf['stripe'], inf['which'], tuple(inf['shape']), inf['lon'], inf['lat'])[0]
+    if k == 'shape-gcirc':
+        return gcirc_shape_probe(inf['units'], inf['s1'], inf['s2'], inf['args'])[0]
+    if k == 'shape-angles':
+        return angles_shape_probe(inf['fn'], inf['latitude'], inf['arr'])[0]
     if k == 'unchanged-input':
         # a representative call of the function with an array argument that is inspected afterwards
         a = np.array([[10.0, 20.0], [200.0, 100.0], [359.0, 179.0]])
